@@ -1005,4 +1005,4 @@ def run():
                        "SQLite matches identifiers ASCII-case-insensitively: names used together in one schema are kept distinct under case folding",
                        "names contain no backtick (PRQL cannot spell one) and are non-empty; the wildcard * is excluded (it is not a name)",
                        "tables spelled like PRQL functions in scope (select, from) cannot be referenced at all (resolver rejects): counted, not judged here"]
-    ck.finish(TRUSTED, "names: all strings of length <= %d over {a, A, space, \", ', ., -, select, e-acute, _expr_0, table_0} (+%s of length 3, + keywords and special spellings), each as column (every column position), join key, table, second table, alias, in skeletons with 0-3 sub-query splits, joins, grouping, computed sort keys; every column of every table holds distinct marker values and decoy tables named table_0..table_3 exist, so a reference to the wrong object changes the result; emit_ident model vs prqlc for every name x 12 dialects; NameGen model vs every logged call of gen/regenerate sites (assign_names, RelVarNameAssigner, ensure_column_name, anchor_split, translate_select_item) in the directed generated-name families and a sample of %s other programs" % (n_ex, "all" if ck.thorough else "400", ck.n(250, 4000)))
+    ck.finish(TRUSTED, "names: all strings of length <= %d over {a, A, space, \", ', ., -, select, e-acute, _expr_0, table_0} (+%s of length 3, + keywords and special spellings), each as column (every column position), join key, table, second table, alias, in skeletons with 0-3 sub-query splits, joins, grouping, computed sort keys; every column of every table holds distinct marker values and decoy tables named table_0..table_3 exist, so a reference to the wrong object changes the result; emit_ident model vs prqlc for every name x 6 (quick: sqlite, postgres, mysql, snowflake + two rotating) / 12 (thorough) dialects; NameGen model vs every logged call of gen/regenerate sites (assign_names, RelVarNameAssigner, ensure_column_name, anchor_split, translate_select_item) in the directed generated-name families and a sample of %s other programs" % (n_ex, "all" if ck.thorough else "400", ck.n(250, 4000)))
